@@ -1,4 +1,7 @@
 import PyodaProofs.C06
+import PyodaProofs.C06Source
+import PyodaProofs.C06Validate
+import PyodaProofs.C06Maps
 
 #print axioms Pyoda.C06.ids_sorted
 #print axioms Pyoda.C06.ids_perm
@@ -6,3 +9,15 @@ import PyodaProofs.C06
 #print axioms Pyoda.C06.fixed_id_range
 #print axioms Pyoda.C06.alias_yields_canonical_data
 #print axioms Pyoda.C06.rule_offset_spec
+#print axioms Pyoda.C06.fromStreamX_stream
+#print axioms Pyoda.C06.versionId_eq
+#print axioms Pyoda.C06.sourceValid_sound
+#print axioms Pyoda.C06.sourceValid_iff
+#print axioms Pyoda.C06.firstFailure_zero_iff
+#print axioms Pyoda.C06.mem_primaryMapping
+#print axioms Pyoda.C06.sourceValid_eq_strict
+#print axioms Pyoda.C06.strict_imp_valid
+#print axioms Pyoda.C06.exact_duplicate_accepted
+#print axioms Pyoda.C06.windowsToTzdb_canonical
+#print axioms Pyoda.C06.tzdbToWindows_entries
+#print axioms Pyoda.C06.tzdbToWindows_direct
